@@ -1488,7 +1488,8 @@ namespace awkward {
                  nextcontent.get()->getitem_next(nexthead,
                                                  nexttail,
                                                  nextadvanced),
-                 array.shape());
+                 array.shape(),
+                 len);
       }
       else {
         return nextcontent.get()->getitem_next(nexthead,
